@@ -2,7 +2,34 @@
 # units: test processes to run; 'quick'/'thorough' = -rapid.checks per process
 # (thorough runs one process per shard unless 'single').
 
+def regress(pid):
+    return {"run": "^TestRegress$", "quick": 1, "thorough": 1, "single": True, "rapid": False, "env": {"VERIF_REGRESS": pid}}
+
+
 PROPS = {
+    "C01": {
+        "level": "exploration",
+        "assumptions": [
+            "reflect.StructOf types stand in for anonymous struct types; named-type behaviour is covered by the committed catalogue (harness/cat) only",
+            "dynamic types are encoded through the public pipeline NewEncoderFor itself uses (SchemaForType, Schema.Codec, FileWriter, Codec.Write); catalogue types through the real Encoder[T]",
+            "equality is spec.Abs/Match: only the normalisations the property documents",
+        ],
+        "units": [
+            regress("C01"),
+            {"run": "^TestC01$", "quick": 6000, "thorough": 40000},
+        ],
+    },
+    "C02": {
+        "level": "exploration",
+        "assumptions": [
+            "the reference container reader and datum decoder in harness/ref (written from the Avro 1.8 specification, no library code) are correct; they are self-tested",
+            "positions the property text leaves undecided (zero time.Time without omitempty, -0.0 / empty-non-nil collections / zero structs under omitempty) accept either union branch",
+        ],
+        "units": [
+            regress("C02"),
+            {"run": "^TestC02$", "quick": 6000, "thorough": 40000},
+        ],
+    },
     "C17": {
         "level": "exploration",
         "exhaustive_quick": False,
